@@ -1,6 +1,7 @@
 import Zstd.Proofs.EncContracts
 import Zstd.Model.EncCoders
 import Zstd.Proofs.MatchValid
+import Zstd.Proofs.LitCoderFrame
 /-
 C02 — compress then decompress returns the input, and the frame is valid Zstandard.
 
@@ -209,8 +210,13 @@ theorem builtin_matcher_valid (d : MG.Driver) (hd : BuiltinState d) (data : List
   Zstd.Proofs.MG.builtinFrame_fastest_valid Gen.prodSliceSize Gen.prodMaxSlices (by decide) (by decide) (by decide)
     (by decide) d hd data
 
-/-- C02 at full strength for `Fastest` over the states a compressor can be in -/
-def compress_fastest_roundtrip_builtin : Prop :=
+/-- C02 for `Fastest` over the states a compressor can be in, PREVIOUS WORDING (kept as the conclusion of
+`compress_fastest_roundtrip_builtin_of`): `data : List Byte` ranges over all lists of `Nat` (`Byte` is an
+abbreviation of `Nat`).  For a list with an element `≥ 256` and more than 1024 literals in a block the
+literal coder has no code for that element and panics (`Props.C16.compress_with_matcher_correct_full_false`
+refutes the analogous wording for user matchers), so this wording is too strong; the theorem
+`compress_fastest_roundtrip_builtin` below is the statement for byte strings. -/
+def compress_fastest_roundtrip_builtin_full : Prop :=
   ∀ (hash : Bool) (d : MG.Driver) (c : Compressor Huf.EncTable), BuiltinState d → c.level = .fastest →
     ∀ (data : List Byte) (frags : List Nat),
     ∃ d' arr frame c', builtinFrame .fastest d data = .ok (d', arr) ∧ BuiltinState d' ∧
@@ -226,7 +232,7 @@ theorem compress_fastest_roundtrip_builtin_of (R : Huf.EncTable → Spec.Huffman
     (hcoders : ∀ (d : MG.Driver) (data : List Byte) d' arr, BuiltinState d →
       builtinFrame .fastest d data = .ok (d', arr) →
       ∀ i st, ∃ r, compressBlockReal (scriptOfArray arr Gen.prodSliceSize i).parse st = .ok r) :
-    compress_fastest_roundtrip_builtin := by
+    compress_fastest_roundtrip_builtin_full := by
   intro hash d c hd hc data frags
   obtain ⟨d', arr, hf, hd', hv⟩ := builtin_matcher_valid d hd data
   obtain ⟨frame, c', h1, h2⟩ := compress_fastest_roundtrip_partial R hash compressBlockReal c hc builtinWindow _ data
@@ -237,6 +243,89 @@ theorem compress_fastest_roundtrip_builtin_of (R : Huf.EncTable → Spec.Huffman
 theorem builtin_state_of_history (jobs : List (Level × List Byte)) :
     BuiltinState (Zstd.Proofs.MG.builtinHistory jobs (MG.Driver.new Gen.prodSliceSize Gen.prodMaxSlices)) :=
   Zstd.Proofs.MG.builtinHistory_state _ _ (by decide) (by decide) jobs _ (Zstd.Proofs.MG.builtinState_new _ _)
+
+/-! ### both remaining obligations discharged (`Proofs/LitCoder*.lean`, `Proofs/Seq*.lean`)
+
+The block-encoder contract holds for the real `compress_block` (`Props.C16.block_encoder_contract_real`:
+sequences half by C12, literals half — RLE, raw, Huffman with new table in direct or FSE-compressed form,
+Treeless, one and four streams — against the STRICT Spec by `Props.C16.lit_coder_correct`), and the real
+coders do not panic on the built-in matcher's parses of byte strings from any reachable encoder state
+(the last candidate, `assert!(encoded_len < 128)` of `write_table`, is excluded by
+`C13.fse_weights_lt_128_full_holds`). -/
+
+open Zstd.Proofs.LitCoder
+
+theorem builtin_window_u32 : builtinWindow + 3 < 2 ^ 32 := by decide
+
+/-- **C02, `Fastest`, built-in matcher, without the finite evaluation behind `fse_weights_lt_128`**: for every
+byte string, every fragmentation, every state of the compressor object and of its matcher that a history of
+frames can produce, both settings of `hash`: the matcher does not panic, and `compress` either completes with
+a frame that the strict Spec decodes to exactly the input (whole frame consumed, checksum verified), or panics
+at `assert!(encoded_len < 128)` in `HuffmanEncoder::write_table`.  No other panic site is reachable. -/
+theorem compress_fastest_roundtrip_builtin_or_assert (hash : Bool) (d : MG.Driver) (c : Compressor Huf.EncTable)
+    (hd : BuiltinState d) (hc : c.level = .fastest) (data : List Byte) (frags : List Nat)
+    (hbytes : ∀ b ∈ data, b < 256) :
+    ∃ d' arr, builtinFrame .fastest d data = .ok (d', arr) ∧ BuiltinState d' ∧
+      ((∃ frame c', compressFrame hash compressBlockReal c builtinWindow (scriptOfArray arr Gen.prodSliceSize) data frags
+            = .ok (frame, c') ∧
+          Spec.decodeFrame frame = some (specResult hash builtinWindow data frame)) ∨
+        (∃ f, compressFrame hash compressBlockReal c builtinWindow (scriptOfArray arr Gen.prodSliceSize) data frags
+            = .error f ∧ WriteTableAssert f)) := by
+  obtain ⟨d', arr, hf, hd', hv⟩ := builtin_matcher_valid d hd data
+  exact ⟨d', arr, hf, hd', compress_real_correct_or_assert hash c hc builtinWindow _ data frags hv builtin_window_u32 hbytes⟩
+
+/-- **C02, `Fastest`, built-in matcher, partial correctness** (no hypothesis on the coders, none on the
+bytes): whenever `compress` returns, the frame decodes to exactly the input -/
+theorem compress_fastest_roundtrip_builtin_decodes (hash : Bool) (d : MG.Driver) (c : Compressor Huf.EncTable)
+    (hd : BuiltinState d) (hc : c.level = .fastest) (data : List Byte) (frags : List Nat) :
+    ∃ d' arr, builtinFrame .fastest d data = .ok (d', arr) ∧ BuiltinState d' ∧
+      ∀ frame c', compressFrame hash compressBlockReal c builtinWindow (scriptOfArray arr Gen.prodSliceSize) data frags
+          = .ok (frame, c') →
+        Spec.decodeFrame frame = some (specResult hash builtinWindow data frame) := by
+  obtain ⟨d', arr, hf, hd', hv⟩ := builtin_matcher_valid d hd data
+  exact ⟨d', arr, hf, hd', fun frame c' hrun =>
+    compress_real_decodes hash c hc builtinWindow _ data frags hv builtin_window_u32 frame c' hrun⟩
+
+/-- **C02 at full strength for `Fastest`, no obligation left** (corrected wording: byte strings): for every
+input, fragmentation, reuse history (any state of the compressor object; any matcher state the protocol can
+produce) and both settings of `hash`, compression with the built-in matcher and the real coders completes —
+neither the matcher nor a coder panics — and the frame is valid Zstandard that decodes to the input (strict
+Spec: whole frame consumed, content equal, checksum verified); the matcher is again in a protocol state. -/
+theorem compress_fastest_roundtrip_builtin (hash : Bool) (d : MG.Driver)
+    (c : Compressor Huf.EncTable) (hd : BuiltinState d) (hc : c.level = .fastest) (data : List Byte)
+    (frags : List Nat) (hbytes : ∀ b ∈ data, b < 256) :
+    ∃ d' arr frame c', builtinFrame .fastest d data = .ok (d', arr) ∧ BuiltinState d' ∧
+      compressFrame hash compressBlockReal c builtinWindow (scriptOfArray arr Gen.prodSliceSize) data frags
+        = .ok (frame, c') ∧
+      Spec.decodeFrame frame = some (specResult hash builtinWindow data frame) := by
+  obtain ⟨d', arr, hf, hd', hv⟩ := builtin_matcher_valid d hd data
+  obtain ⟨frame, c', h1, h2⟩ :=
+    compress_real_correct (fseWeightsLt128_of_full Zstd.Props.C13.fse_weights_lt_128_full_holds) hash c hc builtinWindow _ data frags hv builtin_window_u32 hbytes
+  exact ⟨d', arr, frame, c', hf, hd', h1, h2⟩
+
+/-- … for a compressor after ANY history of frames (levels and inputs arbitrary), spelled out -/
+theorem compress_fastest_roundtrip_builtin_history (hash : Bool)
+    (jobs : List (Level × List Byte)) (c : Compressor Huf.EncTable) (hc : c.level = .fastest) (data : List Byte)
+    (frags : List Nat) (hbytes : ∀ b ∈ data, b < 256) :
+    ∃ d' arr frame c',
+      builtinFrame .fastest (Zstd.Proofs.MG.builtinHistory jobs (MG.Driver.new Gen.prodSliceSize Gen.prodMaxSlices)) data
+        = .ok (d', arr) ∧ BuiltinState d' ∧
+      compressFrame hash compressBlockReal c builtinWindow (scriptOfArray arr Gen.prodSliceSize) data frags
+        = .ok (frame, c') ∧
+      Spec.decodeFrame frame = some (specResult hash builtinWindow data frame) :=
+  compress_fastest_roundtrip_builtin hash _ c (builtin_state_of_history jobs) hc data frags hbytes
+
+/-- a fresh compressor (`FrameCompressor::new(Fastest)`, `compress_to_vec`) on any byte string -/
+theorem compress_fastest_roundtrip_fresh (hash : Bool) (data : List Byte) (frags : List Nat)
+    (hbytes : ∀ b ∈ data, b < 256) :
+    ∃ d' arr frame c',
+      builtinFrame .fastest (MG.Driver.new Gen.prodSliceSize Gen.prodMaxSlices) data = .ok (d', arr) ∧
+      compressFrame hash compressBlockReal (Compressor.fresh .fastest) builtinWindow
+        (scriptOfArray arr Gen.prodSliceSize) data frags = .ok (frame, c') ∧
+      Spec.decodeFrame frame = some (specResult hash builtinWindow data frame) := by
+  obtain ⟨d', arr, frame, c', h1, _, h2, h3⟩ :=
+    compress_fastest_roundtrip_builtin_history hash [] (Compressor.fresh .fastest) rfl data frags hbytes
+  exact ⟨d', arr, frame, c', h1, h2, h3⟩
 
 /-- unimplemented levels: an empty input is framed before the level is looked at (no panic, valid
 frame of the empty string) … -/
